@@ -77,6 +77,13 @@ CHECKS = {
         note="Observers are independent, so all intervals are attached at once. ForceBias has no srun. FixCom is not combined with the trajectory observer (ASE's extxyz writer fails on it).",
         technique="exhaustive enumeration of run-splitting histories on the implementation against a schedule model and a single-run differential oracle",
     ),
+    "C16": dict(
+        category="fault_enumeration",
+        text="The logger, trajectory and restart observers of real simulations write through a proxy around real files ('a' and 'w' mode) that logs every write/flush/seek/truncate/close and records what an independent reader sees on disk after each one. Every grow/shrink history of a GrandCanonical run with explorer-chosen verdicts (depth 3 quick / 4 thorough) plus Canonical and ForceBias runs are executed; at every crash point (every operation, plus line-granular torn prefixes of the bytes it made visible) completed log lines/frames must survive as a prefix and the restart file must load to a saved state; after every completed observer call the log must hold header + one flushed line per call, the trajectory one parseable extended-XYZ frame per call with earlier bytes untouched, the restart file exactly one JSON document of the latest state.",
+        design_ref="4-C16",
+        note="Crash = process death between file-object operations (no fsync/power-loss model). ForceBias runs without a restart file here (C07 covers that it cannot be written).",
+        technique="exhaustive crash-point enumeration over every file operation of every enumerated history, on the implementation's real write path",
+    ),
 }
 
 NA_REASON = "check not built yet in this session (design in DESIGN.md); no claim is made"
